@@ -38,7 +38,8 @@ Definition ev_ok (l : loopk) (is_cancel_iter : bool) (b : beh) (e : event) (o : 
   Bool.eqb (contacts_access l) (o_acc o) &&
   Bool.eqb (contacts_ws (ev_out e)) (o_ws o) &&
   Bool.eqb (is_success (ev_out e)) (o_est o) &&
-  (is_cancel_iter || match ev_out e with OConnected k => Nat.eqb k (o_k o) | _ => true end) &&
+  (is_cancel_iter || match b with AcceptThenDropW _ => true | _ => false end  (* busy sender: count not scripted *)
+   || match ev_out e with OConnected k => Nat.eqb k (o_k o) | _ => true end) &&
   timing_ok (ev_wait e) o.
 
 Fixpoint evs_ok (l : loopk) (sch : list sbeh) (cp : cancelpt) (i : nat) (es : list event) (os : list obs) : bool :=
